@@ -23,6 +23,10 @@ var worlds = map[string]kernel.WorldFunc{
 	"C16": props.RunC16,
 	"C03": props.RunC03,
 	"C18": props.RunC18,
+	"C17": props.RunC17,
+	"C06": props.RunC06,
+	"C14": props.RunC14,
+	"C11": props.RunC11,
 }
 
 // TestSim is the single entry point of the test binary; the driver script
